@@ -117,11 +117,25 @@ def eval_expression(expr: str, context: dict) -> Any:
         )
 
     # We search for all variable names starting with $, remove the $ and add
-    # the value in the dict for eval
+    # the value in the dict for eval. A `$name` inside a string literal is text,
+    # not a variable reference, and must be left as it is.
     expr_locals = {}
     regex_pattern = r"\$([a-zA-Z_][a-zA-Z0-9_]*)"
-    var_names = re.findall(regex_pattern, expr)
-    updated_expr = re.sub(regex_pattern, r"var_\1", expr)
+    string_spans = [m.span() for m in re.finditer(string_pattern, expr)]
+
+    def _inside_string(position: int) -> bool:
+        return any(start <= position < end for start, end in string_spans)
+
+    var_names = [
+        m.group(1)
+        for m in re.finditer(regex_pattern, expr)
+        if not _inside_string(m.start())
+    ]
+    updated_expr = re.sub(
+        regex_pattern,
+        lambda m: m.group(0) if _inside_string(m.start()) else "var_" + m.group(1),
+        expr,
+    )
 
     for var_name in var_names:
         # if we've already computed the value, we skip
